@@ -1,0 +1,73 @@
+//go:build verif
+
+// Read-only accessors of the persistent store for the verification harness in
+// /verif (build tag "verif"). VerifRotate and VerifEvictAllCaches only forward to
+// the store's own exported-but-unreachable methods (memtableQueue.Rotate,
+// segmentManager.EvictAllCaches). Nothing here is compiled into normal builds.
+
+package comet
+
+import "sort"
+
+// VerifMemtableInfo describes one memtable of the queue.
+type VerifMemtableInfo struct {
+	Size   int64
+	Count  uint32
+	Frozen bool
+	DocIDs []uint32 // keys of the memtable's own docInfo map, ascending
+}
+
+// VerifSegmentInfo describes one registered segment.
+type VerifSegmentInfo struct {
+	ID      uint64
+	Cached  bool
+	NumDocs uint32
+}
+
+// VerifStoreState is a snapshot of the store's bookkeeping.
+type VerifStoreState struct {
+	Memtables         []VerifMemtableInfo // queue order, oldest first, mutable last
+	Segments          []VerifSegmentInfo  // segment manager order
+	SegmentCounter    uint64              // last id handed out by nextSegmentID
+	FlushPending      int                 // len(flushChan)
+	CompactionPending int                 // len(compactionChan)
+	Closed            bool
+}
+
+// VerifState returns a snapshot of queue, segment list and counters.
+func (s *PersistentHybridIndex) VerifState() VerifStoreState {
+	var st VerifStoreState
+	s.mu.RLock()
+	st.Closed = s.closed
+	s.mu.RUnlock()
+	for _, mt := range s.memtableQueue.list() {
+		info := VerifMemtableInfo{Size: mt.size(), Count: mt.count(), Frozen: mt.IsFrozen()}
+		if h, ok := mt.index.(*hybridSearchIndex); ok {
+			h.mu.RLock()
+			for id := range h.docInfo {
+				info.DocIDs = append(info.DocIDs, id)
+			}
+			h.mu.RUnlock()
+			sort.Slice(info.DocIDs, func(i, j int) bool { return info.DocIDs[i] < info.DocIDs[j] })
+		}
+		st.Memtables = append(st.Memtables, info)
+	}
+	for _, seg := range s.segmentManager.list() {
+		seg.mu.RLock()
+		st.Segments = append(st.Segments, VerifSegmentInfo{ID: seg.id, Cached: seg.cachedIndex != nil, NumDocs: seg.numDocs})
+		seg.mu.RUnlock()
+	}
+	st.SegmentCounter = s.provider.segmentCounter.Load()
+	st.FlushPending = len(s.flushChan)
+	st.CompactionPending = len(s.compactionChan)
+	return st
+}
+
+// VerifRotate forces a memtable rotation (memtableQueue.Rotate).
+func (s *PersistentHybridIndex) VerifRotate() { s.memtableQueue.Rotate() }
+
+// VerifEvictAllCaches drops every cached segment index (segmentManager.EvictAllCaches).
+func (s *PersistentHybridIndex) VerifEvictAllCaches() { s.segmentManager.EvictAllCaches() }
+
+// VerifTotalMemtableSize is memtableQueue.totalSize().
+func (s *PersistentHybridIndex) VerifTotalMemtableSize() int64 { return s.memtableQueue.totalSize() }
